@@ -53,12 +53,24 @@ Print Assumptions C11_extend_key.
 
 (* expiry "as requested" holds for expiries representable in the key's 32-bit field (2010 + 136
    years); outside it SetExpires wraps - known finding F19 (Findings/C11.v) *)
-Theorem C11_expiry_as_requested_partial : forall t,
-  (timeOffset < t < timeOffset + 4294967296)%Z ->
-  (Z.of_N (expiry_field_of t) + timeOffset = t)%Z.
+Theorem C11_expiry_as_requested : forall t,
+  (* a date the 32-bit field can hold is stored as it is *)
+  ((timeOffset < t <= timeOffset + 4294967295)%Z -> (Z.of_N (expiry_field_of t) + timeOffset = t)%Z)
+  (* a date at or before the 2010 epoch (a request with a large negative ttl) is stored as the
+     earliest date: the key is expired, never long-lived; and only the zero time means "never" *)
+  /\ (t <> 0%Z -> (t <= timeOffset)%Z -> expiry_field_of t = 1)
+  /\ (t <> 0%Z -> expiry_field_of t <> 0)
+  (* no stored expiry is later than the requested one, except for the one-second floor *)
+  /\ (t <> 0%Z -> (Z.of_N (expiry_field_of t) + timeOffset <= Z.max t (timeOffset + 1))%Z).
 Proof.
-  intros t H. unfold expiry_field_of, timeOffset in *.
-  assert (E : (0 <? t)%Z = true) by (apply Z.ltb_lt; lia). rewrite E.
-  rewrite Proofs.IdProofs.u32z_small by lia. lia.
+  intros t. unfold expiry_field_of, timeOffset. repeat split.
+  - intros H. destruct (t =? 0)%Z eqn:Z0; [apply Z.eqb_eq in Z0; lia|].
+    destruct (t - 1262304000 <? 1)%Z eqn:A; [apply Z.ltb_lt in A; lia|]. destruct (4294967295 <? t - 1262304000)%Z eqn:B; [apply Z.ltb_lt in B; lia|]. lia.
+  - intros N0 H. destruct (t =? 0)%Z eqn:Z0; [apply Z.eqb_eq in Z0; contradiction|].
+    destruct (t - 1262304000 <? 1)%Z eqn:A; [reflexivity | apply Z.ltb_ge in A; lia].
+  - intros N0. destruct (t =? 0)%Z eqn:Z0; [apply Z.eqb_eq in Z0; contradiction|].
+    destruct (t - 1262304000 <? 1)%Z eqn:A; [discriminate|]. destruct (4294967295 <? t - 1262304000)%Z eqn:B; [discriminate|]. apply Z.ltb_ge in A. lia.
+  - intros N0. destruct (t =? 0)%Z eqn:Z0; [apply Z.eqb_eq in Z0; contradiction|].
+    destruct (t - 1262304000 <? 1)%Z eqn:A; [lia|]. destruct (4294967295 <? t - 1262304000)%Z eqn:B; [apply Z.ltb_lt in B; lia|]. apply Z.ltb_ge in A. lia.
 Qed.
-Print Assumptions C11_expiry_as_requested_partial.
+Print Assumptions C11_expiry_as_requested.
